@@ -357,22 +357,52 @@ def run_concurrent(cseed: str, chk: Check, *, bound: int, max_dfs: int, pct: int
     ids = [tl.ID_INDEX[x] for x in IDS]
     outcomes: list[Any] = []
 
+    import logging
+
+    access: list[tuple[str, str]] = []  # (request id, stream id) of every access-log record
+
+    class _Tap(logging.Handler):
+        def emit(self, record: logging.LogRecord) -> None:
+            access.append((str(getattr(record, "request_id", "")), str(getattr(record, "stream_id", ""))))
+
+    tap = _Tap()
+    alog = logging.getLogger("vgi_rpc.access")
+    old_level, old_prop = alog.level, alog.propagate
+    alog.addHandler(tap)
+    alog.setLevel(logging.INFO)
+    alog.propagate = False
+
     def make_run_for(mode: str) -> Any:
         def make_run(strategy: Any) -> Any:
             ref[0] = None
+            access.clear()
             clock = tl.Clock(1_700_000_000.0)
             tl.install_clock(clock)
             world = World([cap], ttl, clock)
             w = world.workers[0]
             srng = random.Random(cseed + ":streams")
             streams = []
+            twins = cseed.startswith("conc:fixed:") and int(cseed.rsplit(":", 1)[1]) >= 6  # same method and identity
             for _ in range(nstreams):
-                method, idx = srng.choice(["pc", "pc", "pa", "xa"]), srng.choice(ids)
-                resp = tl.init_stream(w["app"], method, idx)
+                method, idx = ("pc", ids[1]) if twins else (srng.choice(["pc", "pc", "pa", "xa"]), srng.choice(ids))
+                rid = f"init-{len(streams)}"
+                from lib import httpdrv as _hd
+                import pyarrow as _pa
+
+                resp = _hd.call(w["app"], "POST", f"/{method}/init", tl.hdrs(idx, {"X-Request-ID": rid}), _hd.request_body(method, _pa.schema([]), None))
                 cur, call = tl.tokens_of(resp)
-                streams.append({"method": method, "idx": idx, "cur": cur, "call": call})
+                sid = next((s_ for r_, s_ in access if r_ == rid), "")
+                streams.append({"method": method, "idx": idx, "cur": cur, "call": call, "sid": sid})
             # with cap < nstreams the oldest streams are already evicted ("cold"), the newest are live ("warm")
             warm, cold = streams[-cap:], streams[:-cap] or streams[:1]
+            if twins or srng.random() < 0.5:
+                # streams that are already a few turns old: each live stream has been continued once before the
+                # overlapping requests start (a cache that remembers what it served last has something to remember)
+                for stx in warm:
+                    r0 = tl.exchange(w["app"], stx["method"], stx["idx"], tl.cont_body(IN_COLS[stx["method"]], stx["cur"], stx["call"]))
+                    ncur, _ = tl.tokens_of(r0)
+                    if ncur is not None:
+                        stx["cur"] = ncur
             s = S.Scheduler(strategy, max_steps=6000, watchdog_s=30.0)
             ref[0] = s
             results: list[dict[str, Any]] = []
@@ -387,8 +417,13 @@ def run_concurrent(cseed: str, chk: Check, *, bound: int, max_dfs: int, pct: int
                         return
                     stx = (warm if kind == "cont_warm" else cold)[k % len(warm if kind == "cont_warm" else cold)]
                     body = tl.cont_body(IN_COLS[stx["method"]], stx["cur"], stx["call"])
-                    o = world.send(w, stx["method"], stx["idx"], body)
-                    results.append({"kind": kind, "method": stx["method"], "idx": stx["idx"], "body": body, "outcome": o})
+                    rid = f"cont-{k}"
+                    inv0 = len(w["impl"].inv)
+                    resp = tl.exchange(w["app"], stx["method"], stx["idx"], body, {"X-Request-ID": rid})
+                    o = tl.outcome(resp)
+                    o["new_inv"] = [_inv_entry(e) for e in w["impl"].inv[inv0:]]
+                    o["cursor_tok"], _ = tl.tokens_of(resp)
+                    results.append({"kind": kind, "method": stx["method"], "idx": stx["idx"], "body": body, "outcome": o, "rid": rid, "sid": stx["sid"]})
 
                 return run
 
@@ -410,6 +445,7 @@ def run_concurrent(cseed: str, chk: Check, *, bound: int, max_dfs: int, pct: int
     def judge(s: Any) -> None:
         _s, results, world = outcomes[-1]
         outcomes.clear()
+        access_snapshot = list(access)
         chk.case(f"concurrent:cap{cap}:{'+'.join(sorted(kinds))}|{len(s.decisions)}:{hash(tuple(s.decisions)) & 0xFFFFFF:x}")
         chk.hit("concurrent_schedules")
         if s.deadlock:
@@ -430,6 +466,16 @@ def run_concurrent(cseed: str, chk: Check, *, bound: int, max_dfs: int, pct: int
                 if ow["status"] != 200 or ow["error"] is not None:
                     chk.violation(f"concurrent_init_failed:status{ow['status']}", "a stream init overlapping other requests failed", {"script": script, "decisions": s.decisions, "outcome": {k: ow[k] for k in ("status", "error")}})
                 continue
+            # the access record of this turn names the stream the tokens belong to (recorded at its /init)
+            seen_sids = [s_ for r_, s_ in access_snapshot if r_ == r["rid"]]
+            if r["sid"] and seen_sids and ow["status"] == 200:
+                chk.hit("concurrent_stream_id_checked")
+                if any(s_ != r["sid"] for s_ in seen_sids):
+                    chk.violation(
+                        "concurrent_turn_attributed_to_other_stream",
+                        "a continuation overlapping other requests was resolved to another stream's call: its access record carries a stream_id that is not the one recorded at this stream's /init",
+                        {"script": script, "decisions": s.decisions, "expected_stream_id": r["sid"], "record_stream_ids": seen_sids},
+                    )
             orf = world.send(world.ref, r["method"], r["idx"], r["body"])
             chk.hit("concurrent_continuations_compared")
             # the implementation's invocation log is shared by the overlapping requests: the reference's entries
@@ -463,6 +509,9 @@ def run_concurrent(cseed: str, chk: Check, *, bound: int, max_dfs: int, pct: int
         chk.extra["concurrent_pct_schedules"] = chk.extra.get("concurrent_pct_schedules", 0) + st2["schedules"]
     finally:
         st.threading = real_threading  # type: ignore[assignment]
+        alog.removeHandler(tap)
+        alog.setLevel(old_level)
+        alog.propagate = old_prop
 
 
 def run_shard(job: dict[str, Any]) -> dict[str, Any]:
@@ -499,6 +548,7 @@ def main(tier: str, seed: int) -> int:
         "concurrent_preempted_schedules",
         "concurrent_continuations_compared",
         "concurrent_outcomes_equal",
+        "concurrent_stream_id_checked",
     )
     chk.assumptions += [
         "logical clock rebound over `time` in _state_token and _app_stream; `os.urandom(16)` of _state_token rebound in the collision leg only",
@@ -506,7 +556,7 @@ def main(tier: str, seed: int) -> int:
         "the repo's _open_cursor_token/_compute_aad are used as a tool to read returned cursors",
     ]
     n, nc, nconc = (600, 160, 24) if tier == "quick" else (10000, 2500, 400)
-    hs = [f"h:{seed}:{i}" for i in range(n)] + [f"collide:{seed}:{i}" for i in range(nc)] + [f"conc:{seed}:{i}" for i in range(nconc)] + [f"conc:fixed:{i}" for i in range(6)]
+    hs = [f"h:{seed}:{i}" for i in range(n)] + [f"collide:{seed}:{i}" for i in range(nc)] + [f"conc:{seed}:{i}" for i in range(nconc)] + [f"conc:fixed:{i}" for i in range(12)]
     random.Random(f"C14:{seed}").shuffle(hs)
     jobs = [{"histories": part, "tier": tier, "seed": seed, "bound": 2, "max_dfs": 60 if tier == "quick" else 250, "pct": 20 if tier == "quick" else 60} for part in shard.split(hs, 12 if tier == "quick" else 64)]
     for res in shard.pmap("checks.c14", "run_shard", jobs, timeout=1500.0):
